@@ -856,6 +856,7 @@ def _fillgenerator(shape, dtype='float64', fill=0., fillfunc=None,
     if chunklen is None:
         chunklen = max((80 * 1024 ** 2) // (product(shape[1:]) *
                                             dtype.itemsize), 1)
+    chunklen = int(chunklen)  # may be a NumPy scalar of a narrow type
     nchunks, restlen = divmod(shape[0], chunklen)
     chunkshape = [chunklen] + list(shape[1:])
     chunk = np.empty(chunkshape, dtype=dtype)
@@ -878,7 +879,8 @@ def _archunkgenerator(array, dtype=None, chunklen=None):
                                                 array.dtype.itemsize)
         else:
             chunklen = 1024 ** 2
-    chunklen = max(chunklen, 1)
+    # may be a NumPy scalar of a narrow type
+    chunklen = max(int(chunklen), 1)
     if hasattr(array, '__next__'):  # is already an iterator, ignore chunklen
         for chunk in array:
             yield np.asarray(chunk, dtype=dtype)
